@@ -139,7 +139,13 @@ def apiAnswer (mode : String) (d : Desc) : String :=
       else if d.B.commit == 0 && txs.any (·.hasWitness) then "witness" else "ok"
   s!"sanity={sanity} hs={hs} pow={pow} hc={hc} tx={tx} fin={fin} sl={sl} in={ins} so={so} " ++
   s!"c00={cost false false} c01={cost false true} c10={cost true false} c11={cost true true} " ++
-  s!"w={d.weight} cbh={cbh} wc={wc} sub={subsidy d.C.height d.P.subsidyInterval} sc={scr}"
+  -- `CountP2SHSigOps`: the first missing input is an error
+  let p2 := joinC (txs.map (fun t =>
+    if t.isCoinbase then "0"
+    else if t.ins.any (fun i => i.null || !i.avail) then "missing"
+    else toString (sumInt (t.ins.map (·.p2shSigops)))))
+  s!"w={d.weight} cbh={cbh} wc={wc} sub={subsidy d.C.height d.P.subsidyInterval} sc={scr} p2={p2} " ++
+  s!"hv={b01 (decide (2 ≤ d.H.version))}"
 
 def parseDesc? : List String → Option (Desc × Scen)
   | p :: c :: h :: b :: s :: txs =>
